@@ -114,6 +114,9 @@ fn main() {
         "transcript" => {
             sev::props::c20::child_main();
         }
+        "transcript-under-dump" => {
+            sev::props::c20::child_under_dump_main();
+        }
         "list" => {
             for p in sev::props::ALL {
                 println!("{p}");
